@@ -15,6 +15,13 @@ pub fn install(hook: Hook) -> bool {
     HOOK.set(hook).is_ok()
 }
 
+/// serial number for connections, so that events of two connections that reuse
+/// the same port pair can be told apart
+pub fn next_conn_serial() -> u64 {
+    static NEXT: std::sync::atomic::AtomicU64 = std::sync::atomic::AtomicU64::new(1);
+    NEXT.fetch_add(1, std::sync::atomic::Ordering::Relaxed)
+}
+
 #[inline]
 pub fn emit(point: &'static str, a: u64, b: u64) {
     if let Some(hook) = HOOK.get() {
